@@ -341,7 +341,7 @@ def _emit_extracted(u, target, args, block, subst, emit):
             if last is None:
                 last = 1
             inserts.append((last, '\n' + text + '\n', 'before_tail'))
-        elif kind in ('loop_start', 'loop_end', 'loop_after'):
+        elif kind in ('loop_start', 'loop_end', 'loop_after', 'loop_before'):
             k = int(arg)
             if k < 1 or k > len(loops):
                 raise ExtractError(f'{where}: lost anchor loop #{k} in {relpath}::{fname} (function has {len(loops)} loops)')
@@ -350,7 +350,10 @@ def _emit_extracted(u, target, args, block, subst, emit):
             toks2 = _lex2(body)
             bi = next(ix for ix, t in enumerate(toks2) if t.start == br)
             ci = _mc2(toks2, bi)
-            if kind == 'loop_start':
+            if kind == 'loop_before':
+                # right before the loop keyword (after whatever statements precede the loop)
+                inserts.append((kw, '\n' + text + '\n', f'loop{k}-before'))
+            elif kind == 'loop_start':
                 inserts.append((br + 1, '\n' + text + '\n', f'loop{k}-start'))
             elif kind == 'loop_after':
                 # right after the loop's closing brace (and the extra brace of an R4-generated block, if any)
